@@ -117,17 +117,29 @@ def make_client_factory(cb_key, cb_ca, calls):
     return Client
 
 
-def client_kw(known_hosts, alias, algs, cb_key, cb_ca, calls):
-    kw = dict(known_hosts=known_hosts, username=USER, password=PASSWORD, client_keys=None, config=None,
+NICK = 'c04nick'
+
+
+def client_kw(known_hosts, alias, algs, cb_key, cb_ca, calls, config=None):
+    """config = path of an ssh_config file that carries Hostname / Port / HostKeyAlias for host NICK (then the
+    alias is NOT passed as an argument)."""
+    kw = dict(known_hosts=known_hosts, username=USER, password=PASSWORD, client_keys=None,
+              config=None if config is None else [config],
               agent_path=None, preferred_auth='password', client_factory=make_client_factory(cb_key, cb_ca, calls))
-    if alias is not None:
+    if alias is not None and config is None:
         kw['host_key_alias'] = alias
     if algs is not None:
         kw['server_host_key_algs'] = algs
     return kw
 
 
-async def connect_real(*, host, port, addr, known_hosts, alias, algs, cb_key, cb_ca, now, server_key, server_cert):
+def target_args(host, port, config):
+    """positional arguments of connect(): the real name and port, or the nickname the config file resolves"""
+    return (host, port) if config is None else (NICK,)
+
+
+async def connect_real(*, host, port, addr, known_hosts, alias, algs, cb_key, cb_ca, now, server_key, server_cert,
+                       config=None):
     """One asyncssh.connect() to a real asyncssh server.  Returns the observation dict."""
     import asyncssh
     seen = {'begin_auth': 0, 'password': 0}
@@ -152,7 +164,8 @@ async def connect_real(*, host, port, addr, known_hosts, alias, algs, cb_key, cb
     exc = conn = None
     with mock.patch('time.time', lambda: now):
         try:
-            conn = await asyncssh.connect(host, port, tunnel=tun, **client_kw(known_hosts, alias, algs, cb_key, cb_ca, calls))
+            conn = await asyncssh.connect(*target_args(host, port, config), tunnel=tun,
+                                          **client_kw(known_hosts, alias, algs, cb_key, cb_ca, calls, config))
         except Exception as e:                                    # classified below; never swallowed silently
             exc = e
         await memwire.settle(6)
@@ -361,7 +374,7 @@ class LiarLink:
 
 
 async def connect_liar(*, host, port, addr, known_hosts, alias, algs, cb_key, cb_ca, now, hostkey_alg, plan,
-                       strict=True):
+                       strict=True, config=None):
     """One asyncssh.connect() to a Liar that replies according to `plan`.  Returns the observation dict."""
     import asyncssh
     liar = Liar(hostkey_alg=hostkey_alg, strict=strict)
@@ -370,8 +383,8 @@ async def connect_liar(*, host, port, addr, known_hosts, alias, algs, cb_key, cb
     calls = []
     exc = conn = None
     with mock.patch('time.time', lambda: now):
-        fut = asyncio.ensure_future(asyncssh.connect(host, port, tunnel=link,
-                                                     **client_kw(known_hosts, alias, algs, cb_key, cb_ca, calls)))
+        fut = asyncio.ensure_future(asyncssh.connect(*target_args(host, port, config), tunnel=link,
+                                                     **client_kw(known_hosts, alias, algs, cb_key, cb_ca, calls, config)))
         await link.wait_connected(fut)
         for _ in range(60):
             await link.settle(serve=True)
@@ -493,3 +506,162 @@ async def run_script(*, host, port, addr, known_hosts, alias, cb_key, cb_ca, act
         link.conn.abort()
     await link.settle(rounds=4)
     return done, obs
+
+
+# --------------------------------------------------------------------------------------------------
+# engine B behind other ways of reaching a server: through another SSH connection (tunnel= / ProxyJump),
+# over a socket the caller connected (sock=), through a proxy command.  The client's peer address differs in
+# each: none for a tunnelled connection and a proxy command, the socket's peer for sock=.
+
+class LiarEndpoint:
+    """A Liar with a plan, fed with bytes; answers like a server that lets everybody in."""
+
+    def __init__(self, hostkey_alg, plan):
+        self.mini = Liar(hostkey_alg=hostkey_alg)
+        self.mini.reply_plan = plan
+        self.cursor = 0
+        self.error = None
+        self.started = False
+
+    def on_data(self, data):
+        mini = self.mini
+        if not self.started:
+            self.started = True
+            mini.start()
+        if data and self.error is None:
+            try:
+                mini.feed(data)
+            except M.MiniSSHError as e:
+                self.error = e.kind
+                if e.kind == 'no_common_algorithm':
+                    mini.raw(M.disconnect(3, 'no common algorithm'))
+        while self.cursor < len(mini.inbox):
+            t, p = mini.inbox[self.cursor]
+            self.cursor += 1
+            if t == M.MSG_SERVICE_REQUEST:
+                mini.send(M.service_accept(M.Reader(p, 1).get_string()))
+            elif t == M.MSG_USERAUTH_REQUEST:
+                r = M.Reader(p, 1)
+                r.get_string()
+                r.get_string()
+                mini.send(M.userauth_failure(['password']) if r.get_string() == b'none' else M.userauth_success())
+        return mini.take_output()
+
+    def observation(self, exc, calls):
+        mini = self.mini
+        seen = [t for d, t in mini.log if d == 'recv']            # what the client put on the wire, as the server read it
+        offered = None
+        if mini.peer_kexinit_payload:
+            offered = parse_kexinit_hostkey_algs(mini.peer_kexinit_payload[1:])
+        return {'class': classify(exc), 'exc': None if exc is None else type(exc).__name__,
+                'server_saw': {'service_request': seen.count(M.MSG_SERVICE_REQUEST),
+                               'userauth_request': sum(1 for t in seen if t == M.MSG_USERAUTH_REQUEST),
+                               'password_seen': any(t == M.MSG_USERAUTH_REQUEST and PASSWORD.encode() in p_
+                                                    for t, p_ in mini.inbox),
+                               'undecodable_after_newkeys': self.error == 'mac'},
+                'cb_calls': calls, 'client_wire': seen, 'offered': offered, 'mini_error': self.error,
+                'negotiated': mini.negotiated.get('hostkey') if mini.negotiated else None}
+
+
+RELAY = ("import sys,socket,threading,os\n"
+         "s=socket.create_connection((sys.argv[1],int(sys.argv[2])))\n"
+         "def a():\n"
+         "  while True:\n"
+         "    d=os.read(0,65536)\n"
+         "    if not d: break\n"
+         "    s.sendall(d)\n"
+         "  s.shutdown(1)\n"
+         "threading.Thread(target=a,daemon=True).start()\n"
+         "while True:\n"
+         "  d=s.recv(65536)\n"
+         "  if not d: break\n"
+         "  os.write(1,d)\n")
+
+
+async def connect_via(path, *, host, port, addr, known_hosts, alias, algs, cb_key, cb_ca, now, hostkey_alg, plan,
+                      config=None, limit=60.0):
+    """One asyncssh.connect() reaching a LiarEndpoint by `path`:
+         'jump'   tunnel=<a real asyncssh client connection to a real asyncssh jump server whose address is addr>
+         'sock'   sock=<a TCP socket connected on loopback> (the peer address is 127.0.0.1)
+         'proxy'  proxy_command=<a relay process>
+    Returns the observation dict (client_wire = the message numbers the server received)."""
+    import asyncssh
+    import socket
+    import sys
+    from . import sshutil
+    end = LiarEndpoint(hostkey_alg, plan)
+    calls, cleanup = [], []
+    kw = client_kw(known_hosts, alias, algs, cb_key, cb_ca, calls, config)
+    exc = conn = None
+    requested = []
+    try:
+        if path == 'jump':
+            class Bridge(asyncssh.SSHTCPSession):
+                def connection_made(self, chan):
+                    self.chan = chan
+
+                def session_started(self):
+                    out = end.on_data(b'')
+                    if out:
+                        self.chan.write(out)
+
+                def data_received(self, data, datatype):
+                    out = end.on_data(data)
+                    if out:
+                        self.chan.write(out)
+
+            class Jump(asyncssh.SSHServer):
+                def begin_auth(self, username):
+                    return False
+
+                def connection_requested(self, dest_host, dest_port, orig_host, orig_port):
+                    requested.append((dest_host, dest_port))
+                    return Bridge()
+
+            tun = Tunnel(addr, 22)                                # the jump host is at `addr`
+            acc = await asyncssh.listen('jump', 22, tunnel=tun, server_factory=Jump,
+                                        server_host_keys=[sshutil.host_key()])
+            cleanup.append(acc.close)
+            outer = await asyncssh.connect('jump', 22, tunnel=tun, known_hosts=None, username='j', client_keys=None,
+                                           config=None, agent_path=None)
+            cleanup.append(outer.abort)
+            kw['tunnel'] = outer
+        else:
+            async def handle(reader, writer):
+                try:
+                    out = end.on_data(b'')
+                    while True:
+                        if out:
+                            writer.write(out)
+                        data = await reader.read(65536)
+                        if not data:
+                            break
+                        out = end.on_data(data)
+                except (ConnectionError, OSError):
+                    pass
+                finally:
+                    writer.close()
+            srv = await asyncio.start_server(handle, '127.0.0.1', 0)
+            cleanup.append(srv.close)
+            rport = srv.sockets[0].getsockname()[1]
+            if path == 'sock':
+                sock = socket.create_connection(('127.0.0.1', rport))
+                sock.setblocking(False)
+                kw['sock'] = sock
+            else:
+                kw['proxy_command'] = [sys.executable, '-c', RELAY, '127.0.0.1', str(rport)]
+        with mock.patch('time.time', lambda: now):
+            try:
+                conn = await asyncio.wait_for(asyncssh.connect(*target_args(host, port, config), **kw), limit)
+            except Exception as e:
+                exc = e
+            await asyncio.sleep(0)
+    finally:
+        if conn is not None:
+            conn.abort()
+        for f in reversed(cleanup):
+            f()
+        await memwire.settle(6)
+    obs = end.observation(exc, calls)
+    obs['requested'] = requested
+    return obs
